@@ -271,6 +271,11 @@ class FieldsIO:
         field = np.asarray(field)
         assert field.dtype == self.dtype, f"expected {self.dtype} dtype, got {field.dtype}"
         assert field.size == self.nItems, f"expected {self.nItems} values, got {field.size}"
+        # an interrupted append may have left an incomplete record at the end of the file:
+        # discard it, such that the new record starts at a record boundary
+        expectedSize = self.hSize + self.nFields * (self.tSize + self.fSize)
+        if self.fileSize != expectedSize:
+            os.truncate(self.fileName, expectedSize)
         with open(self.fileName, "ab") as f:
             np.array(time, dtype=T_DTYPE).tofile(f)
             field.tofile(f)
